@@ -42,7 +42,7 @@ func verifShift(c cache, d time.Duration) {
 // verif:shards=12
 func VerifC18Histories() {
 	verifnd.Sequential()
-	k := verifnd.Choose("conf", 12) // sharded
+	k := verifnd.Choose("conf", 12)   // sharded
 	liveKind, nonLiveKind := k%4, k/4 // live: off, cap0, cap1, cap2; non-live: off, cap0, cap1
 	conf := &Config{}
 	if liveKind > 0 {
